@@ -205,6 +205,16 @@ def _run_cms(case, ctx):
             ctx.feat("cms_join")
             ctx.op("join", op[1])
         agree(f"after {op}")
+        if len(ops) and op is ops[-1]:
+            # "no cell is left half-updated": a call that FAILS (hash list longer than the sketch is deep) must not have written
+            before = bytes(o)
+            k0 = pool[0]
+            for fn in (o.add_alt, o.remove_alt):
+                try:
+                    fn(o.hashes(k0, d + 2), 2 ** 31)
+                except Exception:  # noqa
+                    pass
+                ctx.check("C16.cms_cells", bytes(o) == before, lambda: f"{fn.__name__} with a hash list longer than the depth raised, but cells/total changed (half-updated)")
     ctx.feat("cms_qt_" + qt)
     return m.hit
 
